@@ -221,6 +221,15 @@ fn webauthn(cfg: &Cfg, rep: &mut Report, h: u64) {
             reject(rep, "authdata-too-short", &a);
         }
     }
+    // bytes appended to the authenticator data after signing: the signed bytes changed
+    {
+        let mut a = clone(&g);
+        a.auth_data.extend_from_slice(&[1, 2, 3, 4, 5]);
+        reject(rep, "authdata-appended-unsigned", &a);
+        let mut a = clone(&g);
+        a.client_data.push(b' ');
+        reject(rep, "clientdata-appended-unsigned", &a);
+    }
     // payload shorter than 32 bytes
     for n in [0usize, 1, 31] {
         let mut a = clone(&g);
